@@ -1774,7 +1774,8 @@ class VM:
         def sign_and_magnitude():
             """('-' or '', exact decimal value of |n|); -0 counts as 0."""
             magnitude = Decimal(n) if isinstance(n, int) else Decimal(float(n))
-            return ("-" if n < 0 else ""), abs(magnitude)
+            # copy_abs is exact (abs() would round to the context precision)
+            return ("-" if n < 0 else ""), magnitude.copy_abs()
 
         def scientific(magnitude, fraction_digits):
             """(digits, exponent) of magnitude rounded half up to fraction_digits + 1
